@@ -42,10 +42,10 @@ def handler(case):
         viols.append(("c06.late", f"normal configuration reached {normal_from - last_failed} increments after the last repair, bound {bound}"))
     # C06.returns_to_normal_mixed on the implementation: in the first increment after which no line is failed, let M bound
     # the timers still running; ceil(M/dt)+2 increments later (manual or ICT-based, whatever the communication state) the
-    # configuration is normal and stays normal.  (Not applicable when sensors / switches fail by themselves.)
+    # configuration is normal and stays normal.  (Not applicable when sensors / switches fail by themselves: polling a failed device adds to the timers, a sensor under repair keeps its section out.)
     last_line_failed = max([r["k"] for r in steps if r["failed"]] + [0])
     calm = [r for r in steps if r["k"] > last_line_failed]
-    if calm and last_line_failed and ops:
+    if calm and last_line_failed and ops and not getattr(v, "devtrouble", False):
         r0 = calm[0]
         M = max([F(0)] + [F(x) for x in r0["timers"].values()] + [F(x) for x in r0["ptimers"].values()])
         due = r0["k"] + math.ceil(M / dt) + 2
@@ -91,7 +91,8 @@ def device_failures(rng, c):
             pick = rng.choice(own) if own and rng.random() < 0.6 else (rng.choice(devs) if devs else None)
             if pick:
                 # fails shortly before the power fault, with a manual repair that outlasts the line's repair
-                c["faults"].setdefault(str(max(1, int(k) - rng.choice([0, 1, 1, 2]))), []).append([pick, str(rng.choice([F(3), F(6), F(8)]))])
+                hard = "h" if (pick.startswith("S") and rng.random() < 0.5) else ""
+                c["faults"].setdefault(str(max(1, int(k) - rng.choice([0, 1, 1, 2]))), []).append([pick, hard + str(rng.choice([F(3), F(6), F(8)]))])
 
 
 def fallible_ict(rng, spec):
